@@ -17,7 +17,7 @@ HARNESS = os.path.join(VERIF, 'harness')
 
 FLAVOURS = {
     'plain': ['-O1', '-g0'],
-    'asan': ['-O1', '-g0', '-fsanitize=address,undefined', '-fno-sanitize-recover=undefined', '-fno-omit-frame-pointer',
+    'asan': ['-O1', '-g0', '-fsanitize=address,undefined', '-fno-sanitize-recover=undefined', '-fno-sanitize=nonnull-attribute', '-fno-omit-frame-pointer',
              '-DVF_SAN=1'],
     'tsan': ['-O1', '-g0', '-fsanitize=thread', '-DVF_SAN=1', '-DVF_TSAN=1'],
 }
